@@ -265,7 +265,7 @@ def _(a, T):
     return (ups, reg.digest(), reg.reverse())
 
 
-@entry("crc.lookup_table", "crc", dict(cfg=Choice(CRC_CFGS)), doc="the lru_cache'd lookup table of a public configuration", ncanon=0, canon=[{"cfg": c} for c in CRC_CFGS])
+@entry("crc.lookup_table", "crc", dict(cfg=Choice(CRC_CFGS)), doc="state probe: the lru_cache'd lookup table of a public configuration", ncanon=0, canon=[{"cfg": c} for c in CRC_CFGS], no_scribble=True)
 def _(a, T):
     from okdmr.dmrlib.etsi.crc import crc
 
@@ -1193,7 +1193,7 @@ def _(a, T):
     return (d, raw, MBXML.from_bytes(raw))
 
 
-@entry("mbxml.tables", "mbxml", dict(doc=Choice(LRRP_DOCS)), doc="get_configuration / build_constants_table / known tokens of a document type", ncanon=2)
+@entry("mbxml.tables", "mbxml", dict(doc=Choice(LRRP_DOCS)), doc="state probe: get_configuration / build_constants_table / known tokens of a document type", ncanon=2, no_scribble=True)
 def _(a, T):
     from okdmr.dmrlib.motorola.lrrp import LRRP
     from okdmr.dmrlib.motorola.mbxml import MBXML, MBXMLDocumentIdentifier
@@ -1232,8 +1232,8 @@ RULE = (
     "one entry with different arguments/lengths; one entry with one argument changed per step; curated (writer, reader) pairs with noise in between; a history whose last call repeats an earlier "
     "one; constructors with default arguments mixed with parsers; half of the histories are followed by a fixed suffix of 'state probe' calls that dump the cached CRC "
     "tables, the LRRP token tables and default-argument objects) plus the complete set of ordered pairs of canonical calls (pairs sub-check).  "
-    "A step may be compound: scribble_repeat (call, damage in place everything mutable the caller got hold of, call "
-    "again with rebuilt arguments) or reuse (call with a, write b into the same argument buffers and call, call with a fresh a); every record must equal the "
+    "A step may be compound: scribble_repeat (call, damage in place the caller's own argument objects and the buffer(s) returned as the call's value, "
+    "call again with rebuilt arguments) or reuse (call with a, write b into the same argument buffers and call, call with a fresh a); every record must equal the "
     "fresh-state observation of the plain call.  pairs additionally covers every *mode* of every entry (each-choice over opcode / variant / length switches "
     "of the argument specs: all RCP/TMP/LP/RRS/HRNP/HSTRP/TMS/ARS opcodes, CSBK opcodes, data header formats, FLCOs, LRRP documents, block types, codes) with "
     "two same-shape calls: ordered pairs both ways, re-use both ways, scribble-and-repeat of each.  Non-trivial: >= 2 calls of the same group in one history (the later one is compared against its run in a fresh state); distinct by hash of the "
@@ -1247,10 +1247,14 @@ ASSUMPTIONS = [
     "repr and the library's own serialisation; object identity is not observed",
     "a catalogue entry may be a short fixed script around the call under test (build the object, call, serialise); it is a deterministic function of its "
     "JSON arguments",
-    "scribble-and-repeat / argument re-use steps: what a caller does with *its own* objects (the buffers it passed, the buffers, lists and dicts it got "
-    "back as a result, as an element of a returned container or as a direct attribute of a returned object) must not change what a later call returns; "
-    "containers are scribbled down to the elements of a returned container, buffers wherever reachable (depth <= 7); nested shared objects below that "
-    "(e.g. token definition objects inside a copied LRRP table) are not scribbled",
+    "scribble scope (scribble_repeat step): damaged in place is only what is unambiguously the caller's own: (1) every argument object the caller built and "
+    "passed (bitarray / bytearray / numpy buffers; dict / list arguments get a key / element added); (2) the result itself when the entry point returns a "
+    "mutable buffer as its value - a bitarray / bytearray / numpy array / array, or a list / tuple whose elements are scalars or such buffers (every buffer "
+    "element, and a returned flat list by an appended element), including, inside a returned tuple / list, elements that are themselves such flat lists / "
+    "tuples (one level).  Never touched: attributes of returned objects, dict / set results, containers inside returned objects, object elements of returned "
+    "containers, anything deeper, results of the state-probe entries marked no_scribble (crc.lookup_table, mbxml.tables).  Writing into attributes of returned "
+    "objects or into tables a helper handed out is not a library call and is outside the statement (latent aliasing hazards at the anchored default-argument "
+    "sites are listed in DESIGN.md as observations, patches kept unapplied in scratch/C19/)",
     "exemptions for argument buffers: HammingCommon.check_and_correct and BPTC19696.repair_if_necessary(deinterleaved=True) (documented in-place repair)",
     "a result that differs between CPython's normal and debug (0xCD-filling) allocator depends on uninitialised memory, i.e. on what earlier calls left "
     "on the heap; this is judged under the first clause of the statement (same arguments, same result)",
@@ -1317,7 +1321,7 @@ def _check_catalogue_call(c):
 
 MUT_EXPECTED = "every bit/byte buffer passed to the call equals the deep copy taken before the call"
 COMPOUND = {
-    "scribble_repeat": ("scribble_and_repeat_same_result", ["call", "call again after the caller damaged, in place, every mutable buffer / list / dict it got hold of (result and arguments)"]),
+    "scribble_repeat": ("scribble_and_repeat_same_result", ["call", "call again after the caller damaged, in place, its argument objects and the buffer(s) the first call returned as its value"]),
     "reuse": ("argument_reuse_same_result", ["call with arguments a", "call with arguments b written in place into the buffers of the first call", "call with a fresh copy of arguments a"]),
 }
 
@@ -1520,14 +1524,20 @@ def history_strategy(max_len: int = 12, probes: bool = True):
         specs = CATALOGUE[e].args
         if not specs:
             return st.just([{"e": e, "a": {}}] * 2)
-        one = st.sampled_from(sorted(specs)).flatmap(lambda n: st.tuples(st.just(n), specs[n].strat()))
+        def change(n):
+            fresh = st.tuples(st.just(n), st.just("fresh"), specs[n].strat())
+            if isinstance(specs[n], BitsVar):  # same zero-padded octets, other bit length
+                return st.one_of(fresh, st.tuples(st.just(n), st.just("zeros"), st.integers(1, 8)))
+            return fresh
+
+        one = st.sampled_from(sorted(specs)).flatmap(change)
 
         def build(t):
             base, changes = t
             calls, cur = [{"e": e, "a": base}], dict(base)
-            for n, v in changes:
+            for n, how, v in changes:
                 cur = dict(cur)
-                cur[n] = v
+                cur[n] = v if how == "fresh" else cur[n] + "0" * v
                 calls.append({"e": e, "a": cur})
             return calls
 
@@ -1669,6 +1679,18 @@ def drv_pairs(ctx: Ctx, sub: SubCheck):
         ctx.run_case(sub.name, oracle_history, {"kind": "scribble_and_repeat", "calls": [step]}, t)
         t.case(sub.name, nontrivial=True, cls="step_" + step["op"])
 
+    def same_octets_other_length(x):
+        """for every variable-length bit-string argument: the same bits cut to a length that is not a multiple of 8, then
+        extended by one zero bit / zero-filled to the next octet (equal zero-padded octets, different bit strings)"""
+        out = []
+        for n, spec in sorted(CATALOGUE[x["e"]].args.items()):
+            v = x["a"].get(n)
+            if isinstance(spec, BitsVar) and isinstance(v, str) and len(v) >= 4:
+                base = v[: len(v) - 3 if len(v) % 8 in (0, 3) else len(v)]
+                for ext in (base + "0", base + "0" * (-len(base) % 8)):
+                    out.append(({"e": x["e"], "a": {**x["a"], n: base}}, {"e": x["e"], "a": {**x["a"], n: ext}}))
+        return out
+
     def family_work(fam, t: Tally):
         """one mode (opcode / variant / length) of one entry, two calls of the same shape: ordered pairs both ways, the argument
         re-use form both ways, scribble-and-repeat of each"""
@@ -1680,6 +1702,10 @@ def drv_pairs(ctx: Ctx, sub: SubCheck):
                     ctx.run_case(sub.name, oracle_history, {"kind": "canonical_pair", "calls": [x, y]}, t)
                     t.case(sub.name, nontrivial=True, cls="pair_same_mode_other_data")
                     compound_single({"e": x["e"], "a": x["a"], "b": y["a"], "op": "reuse"}, t)
+        for x, y in same_octets_other_length(fam[0]):
+            for pair in ((x, y), (y, x)):
+                ctx.run_case(sub.name, oracle_history, {"kind": "canonical_pair", "calls": list(pair)}, t)
+                t.case(sub.name, nontrivial=True, cls="pair_same_octets_other_bit_length")
         t.cls(sub.name, "modes_covered")
 
     def work(chunk, t: Tally):
